@@ -47,7 +47,17 @@ API
 ``to_backend(v)``, ``same_value(x, y)`` (NULL-aware equality, floats with 1e-9 relative tolerance)
 ``like_match(pattern, string, escape=None, ci=False)`` reference LIKE matcher
 ``fmt(ast)`` canonical compact text of a tree (signatures, samples)
-``Semantics`` backend knobs: ``int_div`` "trunc"|"floor", ``div_zero`` "null"|"error".
+``num_to_text(v)``, ``text_to_int(s)``, ``text_to_num(s)``  SQLite's number<->text conversions
+``Semantics`` backend knobs: ``int_div`` "trunc"|"floor", ``div_zero`` "null"|"error", ``coerce_text`` (text operands of
+arithmetic take their numeric prefix instead of raising ``SqlError``).  Presets: ``SQLITE`` (default; strict about
+text in arithmetic), ``SQLITE_LAX`` (SQLite's implicit coercions; used to reproduce what SQLite does with mis-grouped text).
+``SqlError`` is raised for operations outside the model (text compared with a number, arithmetic on text under a
+strict Semantics, division by zero under div_zero="error").
+
+Numeric corners follow SQLite: integer ``/`` truncates toward zero, ``%`` takes the sign of the dividend and casts real
+operands to integer (result real if an operand was real), division / modulo by zero is NULL, CAST(real AS TEXT) uses 15
+significant digits.  Strings compare by code point (BINARY collation, ASCII data).  LIKE is case sensitive (``ilike``
+lowers ASCII on both sides), as on SQLite with ``PRAGMA case_sensitive_like=ON`` and on every other backend.
 """
 from __future__ import annotations
 
@@ -440,7 +450,7 @@ def compile_ast(ast, sem=SQLITE):
         return floor
     if k == "lower":
         (fx,) = fs
-        return lambda row: (lambda x: None if x is None else _ascii_lower(x))(fs[0](row))
+        return lambda row: (lambda x: None if x is None else _ascii_lower(x if isinstance(x, str) else num_to_text(x)))(fs[0](row))
     if k == "concat":
 
         def concat(row):
